@@ -33,6 +33,16 @@ def advance (sys : Sys σ Lab) (states : List σ) (act : σ → Option σ) : Lis
   let (all, ok) := closure sys next
   ((all.toList.filter (quiescent sys)), ok)
 
+/-- two environment actions released *together* (the harness lets both go before it waits for quiescence): any
+amount of internal progress may happen between them — so the model states in which both have happened but the
+bookkeeping of neither has finished (two workers holding a failure at once, audit C13 F7) are on the model side of
+the inclusion —, and they may take effect in either order -/
+def advance2 (sys : Sys σ Lab) (states : List σ) (act1 act2 : σ → Option σ) : List σ × Bool :=
+  let (m12, ok1) := closure sys (states.filterMap act1)
+  let (m21, ok2) := closure sys (states.filterMap act2)
+  let (all, ok3) := closure sys (m12.toList.filterMap act2 ++ m21.toList.filterMap act1)
+  ((all.toList.filter (quiescent sys)), ok1 && ok2 && ok3)
+
 def dedupStrings (l : List String) : List String :=
   l.foldl (fun acc x => if acc.contains x then acc else acc ++ [x]) []
 
